@@ -70,6 +70,16 @@ int vp_case(Choice& c, Report& rep) {
     if (d < 2) per_ch = per_ch < 64000 ? per_ch + 40000 : per_ch;   // 2.5/5 ms frames carry a large overhead
     int bitrate = per_ch * ch;
     int fmt = c.irange(0, 2);
+    // class "quiet input" (hash-derived switch): the same families 40, 60 or (24-bit / float entry points only) 80 or 100 dB lower.  "All three sample
+    // formats" includes what only the wider formats can carry: a 24-bit signal below the 16-bit LSB must not be treated as 16-bit silence.
+    const uint64_t gh0 = fnv1a(c.d, c.n);
+    const bool quiet = (gh0 % 7) == 4;
+    if (quiet) {
+      int lvl = (int)((gh0 >> 16) % 4);
+      if (fmt == 0 && lvl >= 2) lvl = 1;
+      amp *= lvl == 0 ? 1e-2 : lvl == 1 ? 1e-3 : lvl == 2 ? 1e-4 : 1e-5;
+      rep.labelf("class:quiet-input-%ddB", -40 - 20 * lvl);
+    }
     int fs = cu::frame_samples(Fs, d);
     int nframes = (Fs * 3 / 2 + fs - 1) / fs;
     int total = nframes * fs;
@@ -156,7 +166,7 @@ int vp_case(Choice& c, Report& rep) {
     } else rep.label("delay-not-measurable");
     // ---- (2) SNR, band energies, (3) per-channel gain / identity, all at the reported delay
     for (int k = 0; k < ch; k++) {
-      if (am_rms(x.data() + k, total, ch) < 1e-4) continue;
+      if (am_rms(x.data() + k, total, ch) < (quiet ? 1e-8 : 1e-4)) continue;
       double g = 0, gr = 0;
       double snr = am_snr_db(x.data() + k, y.data() + k, total, ch, look, skip, &g);
       double snr_r = am_snr_db(x.data() + k, yr.data() + k, total, ch, rlook, skip, &gr);
@@ -167,6 +177,7 @@ int vp_case(Choice& c, Report& rep) {
 #ifdef FIXED_POINT
       fl = -1000;   // the absolute class floors were measured on the float build only
 #endif
+      if (quiet) fl = -1000;   // ... and at normal levels
       if (fl > -100) { VP_REQUIRE(snr >= fl, "c04:snr-floor", "channel %d: SNR %.2f dB below the calibrated class floor %.2f dB (class %s)", k, snr, fl, cls); rep.label("class-floor-checked"); }
       if (snr_r >= 8.0) {
         VP_REQUIRE(g > 0, "c04:sign", "channel %d: output is sign-inverted (gain %.3f)", k, g);
